@@ -1,6 +1,168 @@
 import Driver.Util
+import Sqfs.Model.FsTree
+import Sqfs.Spec.FsTree
+/-!
+`sqfsmodel c11` — line protocol driver for the model of the directory scan (property C11).
+
+  run <sorted 0|1> <d.uid> <d.gid> <d.mtime> <d.mode> <nsteps> step*
+      step   = A <path> <mode> <uid> <gid> <mtime> <rdev> <extra>                 (`fstree_add_generic` from a pack-file line)
+             | G <target path> <flags> <defUid> <defGid> <defMode> <defMtime> <filePrefix> <pattern> <rootDev> forest
+                                                                                  (`glob_files` / `--pack-dir`)
+      forest = <n> node*        node = <name> <mode> <uid> <gid> <mtime> <dev> <ino> <rdev> <target> forest
+      extra / filePrefix / pattern = "-" (absent) | "p:<hex>"
+    → "ok <dump>" | "err"      (dump format: see harness/h_c11.c)
+  isort <name>*          → the names after `insert_sorted` of each, in the order given
+  mon-sorted <name>*     → 1 iff the list is strictly increasing in strcmp order (`Sqfs.FsTree.SortedNames`); monitor op:
+                           evaluated by the check on the child lists of the trees the *implementation* built
+  lt <a> <b>             → 1 iff strcmp(a, b) < 0 in the model
+Numbers are decimal, names/paths hex ("-" = empty), paths are joined with '/'.
+-/
 namespace Driver.C11
-/-- stub: the model driver for C11 is not built yet -/
+open Sqfs.FsTree Sqfs.Consts
+
+def splitPath (s : List UInt8) : Path :=
+  (s.splitOn slash).filter (· ≠ [])
+
+def optTok (s : String) : Option (Option (List UInt8)) :=
+  if s = "-" then some none
+  else if s.startsWith "p:" then (fromHex (s.drop 2).toString).map some
+  else none
+
+/-- `fnmatch` restricted to literals, `?` and `*` (with `FNM_PATHNAME`: neither matches '/') -/
+partial def globMatch (pat str : List UInt8) (pathname : Bool) : Bool :=
+  match pat, str with
+  | [], [] => true
+  | [], _ :: _ => false
+  | p :: ps, s =>
+    if p = 0x2a then
+      globMatch ps s pathname ||
+        (match s with
+         | [] => false
+         | c :: cs => if pathname && c = slash then false else globMatch pat cs pathname)
+    else match s with
+      | [] => false
+      | c :: cs =>
+        if p = 0x3f then (if pathname && c = slash then false else globMatch ps cs pathname)
+        else if p = c then globMatch ps cs pathname else false
+
+def nat? (s : String) : Option Nat := s.toNat?
+def int? (s : String) : Option Int := s.toInt?
+
+partial def parseForest : List String → Option (List HNode × List String)
+  | [] => none
+  | cnt :: rest => do
+    let n ← nat? cnt
+    let rec go (k : Nat) (toks : List String) (acc : List HNode) : Option (List HNode × List String) :=
+      if k = 0 then some (acc.reverse, toks) else
+      match toks with
+      | name :: mode :: uid :: gid :: mtime :: dev :: ino :: rdev :: tgt :: more => do
+        let name ← fromHex name
+        let st : Stat := { mode := ← nat? mode, uid := ← nat? uid, gid := ← nat? gid, mtime := ← int? mtime,
+                           dev := ← nat? dev, ino := ← nat? ino, rdev := ← nat? rdev }
+        let tgt ← fromHex tgt
+        let (ch, more') ← parseForest more
+        go (k - 1) more' (HNode.mk name st tgt ch :: acc)
+      | _ => none
+    go n rest []
+
+inductive Step where
+  | add (e : Ent) (extra : Extra)
+  | glob (target : Path) (cfg : Cfg) (rootDev : Nat) (forest : List HNode)
+
+partial def parseSteps : Nat → List String → Option (List Step)
+  | 0, [] => some []
+  | 0, _ => none
+  | k + 1, "A" :: path :: mode :: uid :: gid :: mtime :: rdev :: extra :: more => do
+    let p := splitPath (← fromHex path)
+    let e : Ent := { rel := p, path := p, mode := ← nat? mode, uid := ← nat? uid, gid := ← nat? gid,
+                     mtime := ← int? mtime, dev := 0, ino := 0, rdev := ← nat? rdev, mount := false, hard := false }
+    let ex ← optTok extra
+    let rest ← parseSteps k more
+    some (.add e (match ex with | none => .none | some s => .str s) :: rest)
+  | k + 1, "G" :: target :: flags :: du :: dg :: dm :: dt :: fp :: pat :: rootDev :: more => do
+    let tp := splitPath (← fromHex target)
+    let cfg : Cfg := { flags := ← nat? flags, defUid := ← nat? du, defGid := ← nat? dg, defMode := ← nat? dm,
+                       defMtime := ← int? dt, pfx := tp, filePrefix := ← optTok fp, pattern := ← optTok pat }
+    let rd ← nat? rootDev
+    let (forest, more') ← parseForest more
+    let rest ← parseSteps k more'
+    some (.glob tp cfg rd forest :: rest)
+  | _, _ => none
+
+def runSteps (sorted : Bool) (d : Defaults) : List Step → TNode → List Path → Option (TNode × List Path)
+  | [], t, l => some (t, l)
+  | .add e extra :: rest, t, l =>
+      match addPath d e extra e.path t with
+      | none => none
+      | some t' => runSteps sorted d rest t' (if e.hard then e.path :: l else l)
+  | .glob target cfg rootDev forest :: rest, t, l =>
+      match globInto sorted d cfg globMatch rootDev forest target t l with
+      | none => none
+      | some (t', l') => runSteps sorted d rest t' l'
+
+def tokPath (p : Path) : String := toHexTok (joinPath p)
+
+def octal (n : Nat) : String := String.ofList (Nat.toDigits 8 n)
+
+mutual
+partial def dumpNode (r : Result) (path : Path) (t : TNode) : String :=
+  let a := t.attr
+  let head := s!" N {tokPath path} {octal a.mode} {a.uid} {a.gid} {a.modTime} {a.linkCount} {if a.implicit then 1 else 0} {if a.hard then 1 else 0} {a.rdev} "
+  let tail :=
+    if t.isHardLink then
+      match a.extra with
+      | .link tg res => s!"l:{tokPath tg}:{match res with | some p => tokPath p | none => "?"} 0"
+      | _ => "l:?:? 0"
+    else
+      let ex := match a.extra with
+        | .str s => "s:" ++ toHexTok s
+        | _ => "-"
+      let inum := if r.inodes.contains path then indexOf path r.inodes + 1 else 0
+      s!"{ex} {inum}"
+  head ++ tail ++ (if t.isDir then dumpList r path t.children else "")
+partial def dumpList (r : Result) (path : Path) : List TNode → String
+  | [] => ""
+  | c :: cs => dumpNode r (path ++ [c.name]) c ++ dumpList r path cs
+end
+
+def dump (r : Result) : String :=
+  s!"ok n={r.inodes.length}" ++ dumpNode r [] r.tree ++ " F" ++ String.join (r.files.map fun p => " " ++ tokPath p)
+
+def step (line : String) : String :=
+  match words line with
+  | "run" :: sorted :: du :: dg :: dt :: dm :: n :: rest =>
+    match nat? sorted, nat? du, nat? dg, nat? dt, nat? dm, nat? n with
+    | some so, some du, some dg, some dt, some dm, some n =>
+      let d : Defaults := { uid := du, gid := dg, mtime := dt, mode := dm }
+      match parseSteps n rest with
+      | none => "bad-op"
+      | some steps =>
+        match runSteps (so != 0) d steps (initRoot d) [] with
+        | none => "err"
+        | some (t, links) =>
+          match postProcess t links with
+          | none => "err"
+          | some r => dump r
+    | _, _, _, _, _, _ => "bad-op"
+  | "isort" :: names =>
+    match names.mapM fromHex with
+    | none => "bad-op"
+    | some ns =>
+      let mk (n : Name) : TNode := .mk n default []
+      let l := ns.foldl (fun acc n => insertSorted (mk n) acc) []
+      String.intercalate " " (l.map fun t => toHexTok t.name)
+  | "mon-sorted" :: names =>
+    -- monitor: the specification predicate `SortedNames` evaluated on a child list observed in the implementation
+    match names.mapM fromHex with
+    | none => "bad-op"
+    | some ns => if decide (SortedNames ns) then "1" else "0"
+  | "lt" :: a :: b :: [] =>
+    match fromHex a, fromHex b with
+    | some a, some b => if nameLt a b then "1" else "0"
+    | _, _ => "bad-op"
+  | _ => "bad-op"
+
 def run (_args : List String) : IO Unit := do
-  IO.eprintln "sqfsmodel: model C11 not built yet"
+  lineLoop (← IO.getStdin) (← IO.getStdout) step
+
 end Driver.C11
